@@ -479,6 +479,19 @@ def check_loop(ctx, rep, INNER_FN, se, pr, lp):
             store_blocks[bi] = (loc, v)
     err_blocks = {bi: se.assigns[(bi, si)][1] for bi, si, s in util.blocks_constructing(body, "error::NormalizedStringError", "CharacterNotAllowed")}
     accept, reject, undec = [], [], []
+    TRY_U8 = "std::char::convert::<impl std::convert::TryFrom<char> for u8>::try_from"
+    aliases = [c_term]          # terms that carry the character's scalar value on the paths where they exist
+    for i_ in se.term_info.values():
+        if i_.get("k") == "call" and i_["name"] == TRY_U8 and len(i_["args"]) == 1 and strip(i_["args"][0]) == strip(c_term):
+            # Ok(b) of u8::try_from(c): b == c as a number (c <= 0xFF on that arm)
+            aliases.append(("field", ("downcast", strip(i_["term"]), 0), 0))
+
+    def cmp_any(d):
+        for a_ in aliases:
+            r_ = cmp_set(d, a_)
+            if r_ is not None:
+                return r_
+        return None
 
     def explore(bb, cs, seen):
         if not cs:
@@ -514,7 +527,16 @@ def check_loop(ctx, rep, INNER_FN, se, pr, lp):
                         continue
                 break
             ts = fs = None
-            cm = cmp_set(d, c_term)
+            cm = cmp_any(d)
+            if d[0] == "discr" and util.is_call(strip(d[1]), TRY_U8) and strip(strip(d[1])[2][0]) == strip(c_term):
+                # Result<u8, _> of u8::try_from(c): Ok (discriminant 0) exactly for c <= 0xFF
+                ok_set, err_set = inter(cs, [(0, 0xFF)]), minus(cs, [(0, 0xFF)])
+                tgd = dict(info["targets"])
+                used = set()
+                for val, st_ in ((0, ok_set), (1, err_set)):
+                    tgt_ = tgd.get(val, info["otherwise"])
+                    explore(tgt_, st_, seen + (bb,))
+                return
             if d[0] == "int" and d[2] == "bool":
                 ts, fs = (cs, []) if d[1] else ([], cs)
             elif cm is not None:
@@ -569,7 +591,9 @@ def check_loop(ctx, rep, INNER_FN, se, pr, lp):
         # to_ascii_uppercase(c) as u8   or   (c as u8).to_ascii_uppercase()  (equal on the ASCII accept set)
         f1 = v[0] == "cast" and v[1] == "IntToInt" and v[3] == "u8" and util.is_call(v[2], "std::char::methods::<impl char>::to_ascii_uppercase") and v[2][2][0] == c_term
         f2 = util.is_call(v, "core::num::<impl u8>::to_ascii_uppercase") and strip(v[2][0]) == ("cast", "IntToInt", c_term, "u8") and accept == ACCEPT
-        good = idx_ok and (f1 or f2)
+        # ... or of the byte u8::try_from(c) produced (the same number as c where it exists)
+        f3 = util.is_call(v, "core::num::<impl u8>::to_ascii_uppercase") and strip(v[2][0]) in [strip(a_) for a_ in aliases[1:]] and accept == ACCEPT
+        good = idx_ok and (f1 or f2 or f3)
         desc = show(v, maxdepth=3)
     rep.check(good, "normal-form", INNER_FN, "stored-byte", "array[position] = ASCII upper case of c", "stored byte is not the ASCII upper case of the character at its position: " + desc, body.loc())
     oks = [(bi, si) for bi, si, s in util.blocks_constructing(body, NS)]
@@ -682,11 +706,16 @@ def check_tail(ctx, rep, INNER_FN):
         r = strip(ase.ret)
         if util.is_call(r) and r[1].endswith("::unwrap") and util.is_call(r[2][0]) and r[2][0][1] in ("core::str::from_utf8", "std::str::from_utf8"):
             sl = strip(r[2][0][2][0])
+            cut = None
             if util.is_call(sl) and sl[1].endswith("::index") and sl[2][1][0] == "agg" and sl[2][1][2] == "std::ops::RangeTo":
-                base = sl[2][0]
+                cut = (sl[2][0], sl[2][1][4][0])
+            elif sl[0] == "field" and sl[2] == 0 and util.is_call(sl[1], "core::slice::<impl [T]>::split_at") and len(sl[1][2]) == 2:
+                cut = (strip(sl[1][2][0]), sl[1][2][1])      # the part before the split point: s.split_at(length).0
+            if cut is not None:
+                base = cut[0]
                 from rules import arith as _ar
 
-                end = _ar.norm(sl[2][1][4][0])
+                end = _ar.norm(cut[1])
                 end = ("field", ("param", 1), end[2]) if end[0] == "fld" and end[1] == ("param", 1) else end
                 fs = fb.adt_fields(NS)
                 ai = [i for i, f in enumerate(fs) if fb.ty(f["ty"]).k == "array"][0]
